@@ -8,8 +8,9 @@ from typing import Dict, List, Optional, Set, Tuple
 
 from ..astutil import ancestors, calls_in, dotted, dotted_reads, lexical_guards, name_stores, names_in, parent_map, test_atoms, unparse, walk_local, walk_stmts
 from ..cfg import no_exc
-from ..report import Registry, sub
+from ..report import Registry, chain, sub
 from ._helpers_rules_d import call_nodes, callee_is, const_is, guard_atom_set
+from . import _helpers_rob_g1 as G
 
 R = Registry(
     "C44",
@@ -42,6 +43,37 @@ EMITTERS = {
     "_emit_post_update_statements": "_collect_post_update_commands",
     "_emit_delete_statements": "_collect_delete_commands",
 }
+
+
+_EMIT_WORDS = {"StaleDataError", "rowcount", "execute", "supports_sane_rowcount", "supports_sane_multi_rowcount"}
+_COLLECT_WORDS = {"update_version_id", "version_id_col", "version_id_generator", "get_history"}
+
+
+def _mentions(words):
+    def want(callee) -> bool:
+        for n in ast.walk(callee.node):
+            if isinstance(n, ast.Attribute) and n.attr in words or isinstance(n, ast.Name) and n.id in words:
+                return True
+        return False
+    return want
+
+
+_WANT_EMIT, _WANT_COLLECT = _mentions(_EMIT_WORDS), _mentions(_COLLECT_WORDS)
+
+
+def _emitter(ctx, name):
+    """The emitter in normal form: helpers that execute / count rows / raise StaleDataError are inlined at their call
+    site (the inverse of 'extract method'), single-expression predicate helpers are expanded, pure aliases
+    (`dialect = connection.dialect`) are resolved."""
+    return G.normal_form(ctx, ctx.func(f"{PERS}::{name}"), want=_WANT_EMIT)
+
+
+def _collector(ctx, name):
+    return G.normal_form(ctx, ctx.func(f"{PERS}::{name}"), want=_WANT_COLLECT)
+
+
+def _pos(t):
+    return (getattr(t, "lineno", 0), getattr(t, "col_offset", 0))
 
 
 def _version_flag(ctx, f) -> str:
@@ -94,7 +126,7 @@ def _version_criterion(builder) -> List[Tuple[ast.Call, ast.Compare, ast.Call]]:
              "the matching collector fills with the loaded version")
 def r1(ctx):
     for ename, cname in EMITTERS.items():
-        f = ctx.func(f"{PERS}::{ename}")
+        f = _emitter(ctx, ename)
         flag = _version_flag(ctx, f)
         ctx.check(bool(flag), f"{f.key}:version-flag", "no local defined as `mapper.version_id_col is not None and mapper.version_id_col in mapper._cols_by_table[table]`",
                   f"{flag} = version column present in this table", f.loc)
@@ -115,7 +147,7 @@ def r1(ctx):
                   f"the statement does not gain `mapper.version_id_col == bindparam(...)` exactly under `{flag}` ({len(crit)} criteria found)",
                   f"WHERE version_id_col == bindparam under {flag} only", f.loc)
         # the collector binds the loaded version under the same key
-        cf = ctx.func(f"{PERS}::{cname}")
+        cf = _collector(ctx, cname)
         vcols = {n for n, v, st in name_stores(cf.node) if v is not None and dotted(v) == "mapper.version_id_col"} | {"mapper.version_id_col"}
         keys = set()
         for st in walk_stmts(cf.node.body):
@@ -174,7 +206,7 @@ def _expand(ctx, f, expr, flag, depth=0, seen=None, stop=frozenset()) -> List[as
              "(any other condition must be disjoined with the versioning flag); warn-only never applies to versioned rows")
 def r2(ctx):
     for ename in EMITTERS:
-        f = ctx.func(f"{PERS}::{ename}")
+        f = _emitter(ctx, ename)
         flag = _version_flag_loose(ctx, f)
         ctx.require(flag, f"{ename}: versioning flag not found")
         g = ctx.cfg(f)
@@ -219,7 +251,7 @@ def r2(ctx):
             if not any(x is first_test or True for x in [t]):
                 continue
             # only tests from the row-count test onwards belong to the decision
-            if getattr(t, "lineno", 0) < getattr(first_test, "lineno", 0):
+            if _pos(t) < _pos(first_test):
                 continue
             conj = t.values if (isinstance(t, ast.BoolOp) and isinstance(t.op, ast.And) and pol) else [t]
             for part in conj:
@@ -252,7 +284,7 @@ def r2(ctx):
         # that implies `not flag`
         divert = set()
         for t, pol in guards:
-            if getattr(t, "lineno", 0) < getattr(first_test, "lineno", 0):
+            if _pos(t) < _pos(first_test):
                 continue
             for txt, p2 in test_atoms(t, pol):
                 if not p2 and txt.isidentifier() and txt != flag:
@@ -317,7 +349,7 @@ def _atoms_of(expr, defs, out, depth=0):
              "dialect reports reliable single-row counts but not multi-row counts")
 def r3(ctx):
     for ename in EMITTERS:
-        f = ctx.func(f"{PERS}::{ename}")
+        f = _emitter(ctx, ename)
         flag = _version_flag_loose(ctx, f)
         ctx.require(flag, f"{ename}: versioning flag not found")
         g = ctx.cfg(f)
@@ -362,7 +394,7 @@ def r3(ctx):
              "generator's result computed from it; the loaded version comes from the committed state")
 def r4(ctx):
     for cname in ("_collect_update_commands", "_collect_post_update_commands"):
-        f = ctx.func(f"{PERS}::{cname}")
+        f = _collector(ctx, cname)
         vcols = {n for n, v, st in name_stores(f.node) if v is not None and dotted(v) == "mapper.version_id_col"} | {"mapper.version_id_col"}
         gen = {n for n, v, st in name_stores(f.node) if isinstance(v, ast.Call) and callee_is(v, "mapper.version_id_generator")
                and len(v.args) == 1 and isinstance(v.args[0], ast.Name) and v.args[0].id == "update_version_id"}
@@ -383,7 +415,7 @@ def r4(ctx):
         ctx.check(where_ok and not swapped, f"{f.key}:where-gets-loaded-version", "the WHERE parameter (version_id_col._label) is not bound to the loaded version", "params[col._label] = update_version_id", f.loc)
         ctx.check(set_ok, f"{f.key}:set-gets-generated-version", "the SET parameter (version_id_col.key) is not bound to version_id_generator(update_version_id)", "params[col.key] = version_id_generator(update_version_id)", f.loc)
     for oname in ("_organize_states_for_save", "_organize_states_for_delete"):
-        f = ctx.func(f"{PERS}::{oname}")
+        f = _collector(ctx, oname)
         good = False
         for n, v, st in name_stores(f.node):
             if n == "update_version_id" and isinstance(v, ast.Call) and callee_is(v, "_get_committed_state_attr_by_column") and v.args and dotted(v.args[-1]) == "mapper.version_id_col":
@@ -433,10 +465,87 @@ def _strip_views(expr, single_defs, depth=0):
     return expr
 
 
+class _Scan:
+    """One history scan that decides whether a versioned state is skipped: the iteration (`for` statement or
+    comprehension generator), the function it lives in, the {callee parameter: caller argument} map when it lives in a
+    helper, and the places where the scan reports 'found' ([(node, [(test, polarity)] guards inside the iteration)])."""
+
+    def __init__(self, it, target, where, fn, subst, found, lineno):
+        self.iter, self.target, self.where, self.fn, self.subst, self.found, self.lineno = it, target, where, fn, subst, found, lineno
+
+
+def _truthy_const(v):
+    """True/False for a constant return value (None for a non-constant); `return` without value is falsy."""
+    if v is None:
+        return False
+    if isinstance(v, ast.Constant):
+        return bool(v.value)
+    return None
+
+
+def _scan_from_any(call, fn, subst):
+    """`any(<elt> for x in <iter> [if c])`"""
+    if not (isinstance(call, ast.Call) and isinstance(call.func, ast.Name) and call.func.id == "any" and len(call.args) == 1
+            and isinstance(call.args[0], (ast.GeneratorExp, ast.ListComp)) and len(call.args[0].generators) == 1):
+        return None
+    comp = call.args[0]
+    gen = comp.generators[0]
+    guards = [(i, True) for i in gen.ifs] + [(comp.elt, True)]
+    return _Scan(gen.iter, gen.target, comp, fn, subst, [(comp.elt, guards)], call.lineno)
+
+
+def _scan_from_loop(loop, fn, subst, found_nodes, pm):
+    found = [(n, list(lexical_guards(pm, n, stop=loop))) for n in found_nodes]
+    return _Scan(loop.iter, loop.target, loop, fn, subst, found, loop.lineno)
+
+
+def _scan_of_predicate(ctx, f, expr, caller_fn, depth=0):
+    """(scan, value of the expression when NOTHING was found) for a boolean expression that stands for the outcome of a
+    history scan: `any(..)`, a call of a same-module helper that scans, or None."""
+    sc = _scan_from_any(expr, caller_fn, {})
+    if sc is not None:
+        return sc, False
+    if not isinstance(expr, ast.Call) or depth > 1:
+        return None
+    callee = G.resolve_callee(ctx, f, expr)
+    if callee is None or callee.module is not f.module or callee.node is f.node:
+        return None
+    m = G.bind_args(expr, callee)
+    if m is None:
+        return None
+    ctx.functions_analysed.add(callee.key)
+    hn = callee.node
+    pm = parent_map(hn)
+    rets = [r for r in walk_local(hn) if isinstance(r, ast.Return)]
+    # (i) `return any(...)` / `return not any(...)`
+    body = [st for st in hn.body if not (isinstance(st, ast.Expr) and isinstance(st.value, ast.Constant))]
+    if len(body) == 1 and isinstance(body[0], ast.Return) and body[0].value is not None:
+        for e, pol in G.ast_atoms(body[0].value, True):
+            sc = _scan_from_any(e, hn, m)
+            if sc is not None and len(G.ast_atoms(body[0].value, True)) == 1:
+                return sc, (not pol)
+    # (ii) one loop that returns a constant from inside on 'found' and the opposite constant after it
+    loops = [st for st in walk_stmts(hn.body) if isinstance(st, ast.For) and any(isinstance(x, ast.Return) for x in walk_stmts(st.body))]
+    if len(loops) != 1:
+        return None
+    loop = loops[0]
+    inside = [r for r in rets if any(a is loop for a in ancestors(pm, r))]
+    outside = [r for r in rets if r not in inside]
+    vin = {_truthy_const(r.value) for r in inside}
+    vout = {_truthy_const(r.value) for r in outside} or {False}
+    falls_off = not (hn.body and isinstance(hn.body[-1], ast.Return))
+    if falls_off:
+        vout.add(False)
+    if len(vin) != 1 or len(vout) != 1 or None in vin or None in vout or vin == vout:
+        return None
+    return _scan_from_loop(loop, hn, m, inside, pm), next(iter(vout))
+
+
 @R.rule("C44-R5", floor=3, template="T-GUARD/T-FLOW",
         desc="_collect_update_commands: a state whose table carries the version column is skipped (no version-checking "
-             "UPDATE) only in the no-change-found exit of a history scan; that scan ranges over the column properties "
-             "of ALL tables of the state's own mapper and leaves (-> UPDATE is emitted) on any added value")
+             "UPDATE) only in the no-change-found outcome of a history scan (for/else, a flag set by the scan, any(..), "
+             "or a helper that scans and returns the outcome); that scan ranges over the column properties "
+             "of ALL tables of the state's own mapper and reports 'found' (-> UPDATE is emitted) on any added value")
 def r5(ctx):
     f = ctx.func(f"{PERS}::_collect_update_commands")
     pm = parent_map(f.node)
@@ -444,22 +553,23 @@ def r5(ctx):
     ctx.require(len(outer) == 1, "_collect_update_commands: per-state loop binding update_version_id not found")
     outer = outer[0]
     targets = names_in(outer.target)
-    # the versioned branch: `update_version_id is not None and M.version_id_col in M._cols_by_table[table]`
-    vb, mname = None, None
-    for st in walk_stmts(outer.body):
-        if not isinstance(st, ast.If):
-            continue
-        atoms = dict(test_atoms(st.test, True))
-        if atoms.get("update_version_id is None") is False:
-            for txt, pol in atoms.items():
-                if pol and ".version_id_col in " in txt and "._cols_by_table[table]" in txt:
-                    vb, mname = st, txt.split(".version_id_col", 1)[0]
-    ctx.require(vb is not None and mname in targets, "_collect_update_commands: versioned branch not found")
     stores = name_stores(f.node)
     cnt: Dict[str, int] = {}
     for n, v, st in stores:
         cnt[n] = cnt.get(n, 0) + 1
     single_defs = {n: v for n, v, st in stores if v is not None and cnt[n] == 1}
+    bool_defs = {n: v for n, v in single_defs.items() if isinstance(v, (ast.BoolOp, ast.Compare, ast.UnaryOp))}
+    # the versioned branch: `update_version_id is not None and M.version_id_col in M._cols_by_table[table]`
+    vb, mname = None, None
+    for st in walk_stmts(outer.body):
+        if not isinstance(st, ast.If):
+            continue
+        atoms = dict(test_atoms(G.expand_expr(st.test, bool_defs), True))
+        if atoms.get("update_version_id is None") is False:
+            for txt, pol in atoms.items():
+                if pol and ".version_id_col in " in txt and "._cols_by_table[table]" in txt:
+                    vb, mname = st, txt.split(".version_id_col", 1)[0]
+    ctx.require(vb is not None and mname in targets, "_collect_update_commands: versioned branch not found")
     skips = [n for n in walk_stmts(vb.body) if isinstance(n, ast.Continue) and _loop_of(pm, n) is outer]
     kbase = f.key
     if not skips:
@@ -467,88 +577,148 @@ def r5(ctx):
             ctx.ok(f"{kbase}:{aspect}", "a versioned row is never skipped")
         return
     scans, stray = [], []
+
+    def add(sc):
+        if not any(x.where is sc.where for x in scans):
+            scans.append(sc)
+
+    def flag_scan(name):
+        """A boolean local that records the outcome of a scan loop inside the versioned branch: every binding is a constant;
+        the truthy ones sit inside one `for` loop (its 'found' exits), the falsy ones outside its body."""
+        binds = [(v, st) for n, v, st in stores if n == name]
+        if len(binds) < 2 or any(v is None or _truthy_const(v) is None for v, st in binds):
+            return None
+        vals = {_truthy_const(v) for v, st in binds}
+        if vals != {True, False}:
+            return None
+        for found_val in (True, False):
+            fst = [st for v, st in binds if _truthy_const(v) is found_val]
+            loops = []
+            for st in fst:
+                lp = [a for a in ancestors(pm, st) if isinstance(a, ast.For) and a is not outer and any(x is vb for x in ancestors(pm, a))
+                      and not any(st is y or any(z is st for z in ast.walk(y)) for y in a.orelse)]
+                loops.append(lp[0] if lp else None)
+            if loops and all(l is not None and l is loops[0] for l in loops):
+                rest = [st for v, st in binds if _truthy_const(v) is not found_val]
+                if all(any(any(z is st for z in ast.walk(y)) for y in loops[0].orelse) or (not any(a is loops[0] for a in ancestors(pm, st)) and _pos(st) < _pos(loops[0])) for st in rest):
+                    return _scan_from_loop(loops[0], f.node, {}, fst, pm), (not found_val)
+        return None
+
     for c in skips:
-        scan = None
+        hit = None
+        # (1) the nothing-found exit of a for/else scan
         child = c
         for anc in ancestors(pm, c):
             if anc is vb:
                 break
             if isinstance(anc, ast.For) and any(child is x for x in anc.orelse):
-                scan = anc
+                breaks = [b for b in walk_stmts(anc.body) if isinstance(b, ast.Break) and _loop_of(pm, b) is anc]
+                hit = _scan_from_loop(anc, f.node, {}, breaks, pm)
                 break
             child = anc
-        if scan is None:
+        # (2) a guard that stands for 'the scan found nothing': any(..) / helper / flag
+        if hit is None:
+            for t, pol in lexical_guards(pm, c, stop=vb):
+                for e, p in G.ast_atoms(t, pol):
+                    e2 = G.resolve_name(e, single_defs)
+                    r = _scan_of_predicate(ctx, f, e2, f.node)
+                    if r is None and isinstance(e, ast.Name):
+                        r = flag_scan(e.id)
+                    if r is not None and r[1] == p:
+                        hit = r[0]
+                    elif r is not None:
+                        stray.append(c)  # skipped when the scan FOUND a change
+                        hit = False
+        if hit is None:
             stray.append(c)
-        elif scan not in scans:
-            scans.append(scan)
+        elif hit is not False:
+            add(hit)
     ctx.check(not stray, f"{kbase}:skip-only-after-history-scan",
               f"a state whose table carries the version column is skipped (no version check, no increment) at line(s) "
               f"{[c.lineno for c in stray]} without a scan of the state's attribute history finding no change", 
-              f"{len(skips)} skip exit(s), each the nothing-found exit of a history scan", f.loc)
+              f"{len(skips)} skip exit(s), each the nothing-found outcome of a history scan", f.loc)
     if not scans:
         for aspect in ("history-scan-domain", "history-scan-leaves-on-added"):
             ctx.violation(f"{kbase}:{aspect}", "cannot hold: versioned rows are skipped without any history scan", f.loc)
         return
     dom_bad, dom_ok, test_bad = [], [], []
     for scan in scans:
-        dom = _strip_views(scan.iter, single_defs)
+        in_helper = scan.fn is not f.node
+        if in_helper:
+            hstores = name_stores(scan.fn)
+            hc: Dict[str, int] = {}
+            for n, v, st in hstores:
+                hc[n] = hc.get(n, 0) + 1
+            sdefs = {n: G.substitute(v, scan.subst) for n, v, st in hstores if v is not None and hc[n] == 1 and n not in scan.subst}
+        else:
+            sdefs = single_defs
+        it = G.substitute(scan.iter, scan.subst) if in_helper else scan.iter
+        dom = _strip_views(it, sdefs)
         d = dotted(dom) if isinstance(dom, (ast.Attribute, ast.Name)) else None
         reads = names_in(dom)
         attrs = {n.attr for n in ast.walk(dom) if isinstance(n, ast.Attribute)}
         table_scoped = ("table" in reads and "table" in f.params) or any(a.endswith("_table") or "by_table" in a or a.endswith("_to_col") for a in attrs)
         # locals derived from the table (pks, propkey_to_col ...)
         for nm in reads:
-            v = single_defs.get(nm)
+            v = sdefs.get(nm)
             if v is not None and "table" in names_in(v):
                 table_scoped = True
         if table_scoped:
-            dom_bad.append(f"line {scan.lineno}: the scan ranges over `{unparse(scan.iter)}`, the columns/properties of ONE table; a change "
+            dom_bad.append(f"line {scan.lineno}: the scan ranges over `{unparse(it)}`, the columns/properties of ONE table; a change "
                            f"that lives only in another table of the mapper (joined inheritance with an intermediate table) is not seen")
         elif d is not None and d.count(".") == 1 and d.split(".")[0] == mname and d.split(".")[1] in MAPPER_WIDE:
             dom_ok.append(d)
         elif d is not None and d.split(".")[0] != mname or (d is not None and d.count(".") > 1 and d.rsplit(".", 1)[1] in MAPPER_WIDE):
-            dom_bad.append(f"line {scan.lineno}: the scan ranges over `{unparse(scan.iter)}`, which is not the property collection of the state's own mapper `{mname}` "
+            dom_bad.append(f"line {scan.lineno}: the scan ranges over `{unparse(it)}`, which is not the property collection of the state's own mapper `{mname}` "
                            f"(an ancestor mapper does not know the columns of the subclass tables)")
         else:
-            ctx.error(f"_collect_update_commands: cannot classify the domain `{unparse(scan.iter)}` of the history scan at line {scan.lineno} "
+            ctx.error(f"_collect_update_commands: cannot classify the domain `{unparse(it)}` of the history scan at line {scan.lineno} "
                       f"(known mapper-wide collections: {sorted(MAPPER_WIDE)})")
-        # the scan leaves on an added value
+        # the scan reports 'found' on an added value
+        body_stores = name_stores(scan.where) if isinstance(scan.where, ast.For) else []
         hist = {}
-        for n, v, st in name_stores(scan):
+        for n, v, st in body_stores:
             if isinstance(v, ast.Call) and isinstance(v.func, ast.Attribute) and v.func.attr == "get_history":
                 hist[n] = v
-        loopvars = set(names_in(scan.target))
-        derived = set(loopvars)
+        derived = set(names_in(scan.target))
         for _ in range(3):
-            for n, v, st in name_stores(scan):
+            for n, v, st in body_stores:
                 if v is not None and names_in(v) & derived:
                     derived.add(n)
-        breaks = [b for b in walk_stmts(scan.body) if isinstance(b, ast.Break) and _loop_of(pm, b) is scan]
-        if not breaks:
+        if not scan.found:
             test_bad.append(f"line {scan.lineno}: the scan never leaves early, so every state without own-table changes is skipped")
-        for b in breaks:
-            atoms = []
-            for t, pol in lexical_guards(pm, b, stop=scan):
-                atoms.extend(test_atoms(t, pol))
+        for node, guards in scan.found:
             good, wrong = False, []
-            for txt, pol in atoms:
-                for h, call in hist.items():
-                    if txt in (f"{h}.added", f"{h}.has_changes()") and pol:
+            for t, pol in guards:
+                for e, p in G.ast_atoms(t, pol):
+                    # <history>.added / <history>.has_changes()
+                    base, what = None, None
+                    if isinstance(e, ast.Attribute):
+                        base, what = e.value, e.attr
+                    elif isinstance(e, ast.Call) and isinstance(e.func, ast.Attribute) and not e.args:
+                        base, what = e.func.value, e.func.attr + "()"
+                    if base is None:
+                        continue
+                    call = hist.get(base.id) if isinstance(base, ast.Name) else base
+                    if not (isinstance(call, ast.Call) and isinstance(call.func, ast.Attribute) and call.func.attr == "get_history"):
+                        continue
+                    txt = unparse(e)
+                    if what in ("added", "has_changes()") and p:
                         recv_names = names_in(call.func.value)
-                        a0 = call.args[0] if call.args else None
+                        a0 = G.substitute(call.args[0], scan.subst) if (call.args and in_helper) else (call.args[0] if call.args else None)
                         if (recv_names & derived) and isinstance(a0, ast.Name) and a0.id in targets:
                             good = True
                         else:
                             wrong.append(f"{txt} (history of `{unparse(call.func.value)}` is not that of the scanned property of this state)")
-                    elif txt.startswith(h + "."):
-                        wrong.append(f"{'' if pol else 'not '}{txt}")
+                    else:
+                        wrong.append(f"{'' if p else 'not '}{txt}")
             if not good:
                 if wrong:
-                    test_bad.append(f"line {b.lineno}: the scan leaves on {wrong}, not on an added (new) value of the scanned property")
+                    test_bad.append(f"line {getattr(node, 'lineno', scan.lineno)}: the scan leaves on {wrong}, not on an added (new) value of the scanned property")
                 else:
-                    ctx.error(f"_collect_update_commands: cannot read the exit test of the history scan at line {b.lineno}")
+                    ctx.error(f"_collect_update_commands: cannot read the exit test of the history scan at line {getattr(node, 'lineno', scan.lineno)}")
     ctx.check(not dom_bad, f"{kbase}:history-scan-domain", "; ".join(dom_bad), f"scan over {dom_ok} (all tables of the state's mapper)", f.loc)
-    ctx.check(not test_bad, f"{kbase}:history-scan-leaves-on-added", "; ".join(test_bad), "leaves the scan (-> versioned UPDATE) when get_history(state, ..).added is non-empty", f.loc)
+    ctx.check(not test_bad, f"{kbase}:history-scan-leaves-on-added", "; ".join(test_bad), "reports a change (-> versioned UPDATE) when get_history(state, ..).added is non-empty", f.loc)
 
 
 # ---------------------------------------------------------------------- C44-R6: a countable mismatch raises
@@ -558,11 +728,16 @@ def _boolish(v) -> bool:
     return isinstance(v, (ast.BoolOp, ast.Compare, ast.Name, ast.Attribute)) or (isinstance(v, ast.UnaryOp) and isinstance(v.op, ast.Not))
 
 
-def _single_record_atom(e) -> bool:
-    """`len(x) == 1` / `1 == len(x)`"""
+def _is_len_call(x) -> bool:
+    return isinstance(x, ast.Call) and isinstance(x.func, ast.Name) and x.func.id == "len"
+
+
+def _single_record_atom(e, lens=None) -> bool:
+    """`len(x) == 1` / `1 == len(x)` / `n == 1` where the local n is bound once, to `len(x)`"""
     if isinstance(e, ast.Compare) and len(e.ops) == 1 and isinstance(e.ops[0], ast.Eq):
         a, b = e.left, e.comparators[0]
         for x, y in ((a, b), (b, a)):
+            x = G.resolve_name(x, lens or {})
             if isinstance(x, ast.Call) and isinstance(x.func, ast.Name) and x.func.id == "len" and isinstance(y, ast.Constant) and y.value == 1:
                 return True
     return False
@@ -595,7 +770,7 @@ def _eval6(expr, asg, env, depth=0):
     return asg[unparse(expr)]
 
 
-def _sat(guards, fixed, env, multi_record=False):
+def _sat(guards, fixed, env, multi_record=False, lens=None):
     """An assignment of the free atoms under which every (test, polarity) holds, or None."""
     atoms: Dict[str, ast.AST] = {}
     for t, pol in guards:
@@ -603,7 +778,7 @@ def _sat(guards, fixed, env, multi_record=False):
     forced = dict(fixed)
     if multi_record:
         for txt, e in atoms.items():
-            if _single_record_atom(e):
+            if _single_record_atom(e, lens):
                 forced[txt] = False
     free = sorted(a for a in atoms if a not in forced)
     if len(free) > 14:
@@ -625,7 +800,7 @@ def r6(ctx):
     S = "connection.dialect.supports_sane_rowcount"
     M = "connection.dialect.supports_sane_multi_rowcount"
     for ename in EMITTERS:
-        f = ctx.func(f"{PERS}::{ename}")
+        f = _emitter(ctx, ename)
         flag = _version_flag_loose(ctx, f)
         ctx.require(flag, f"{ename}: versioning flag not found")
         g = ctx.cfg(f)
@@ -642,6 +817,7 @@ def r6(ctx):
         single_defs = {n: d[0][0] for n, d in by_name.items() if len(d) == 1 and d[0][0] is not None and _boolish(d[0][0]) and n != flag}
         multi_defs = {n: d for n, d in by_name.items() if len(d) > 1 and all(v is not None and _boolish(v) for v, st in d) and n != flag}
         listy = {n for n, v, st in stores if isinstance(v, (ast.ListComp, ast.List))}
+        lens = G.single_defs(f.node, _is_len_call)
         is_exec = lambda c: isinstance(c.func, ast.Attribute) and c.func.attr == "execute" and dotted(c.func.value) == "connection"
         sites = {"row-by-row": [], "executemany": []}
         for n in call_nodes(g, is_exec):
@@ -705,7 +881,7 @@ def r6(ctx):
                             if _sat(ge, fixed, env) is None:
                                 continue  # this way of executing is not used in the scenario
                             feasible_site = True
-                            res = _sat(ge + gr, fixed, env, multi_record=True)
+                            res = _sat(ge + gr, fixed, env, multi_record=True, lens=lens)
                             ctx.require(res != "too-many", f"{ename}: decision has too many atoms")
                             if res is None:
                                 conj = []
@@ -716,7 +892,7 @@ def r6(ctx):
                                         conj.append((t, pol))
                                 why = []
                                 for t, pol in conj:
-                                    if _sat(ge + [(t, pol)], fixed, env, multi_record=True) is None:
+                                    if _sat(ge + [(t, pol)], fixed, env, multi_record=True, lens=lens) is None:
                                         chosen = [f"{nm} = {unparse(v)} at line {st.lineno}" for nm, v, st in combo if nm in names_in(t)]
                                         why.append(f"`{'' if pol else 'not '}{unparse(t)}`" + (f" ({', '.join(chosen)})" if chosen else ""))
                                 blockers.append(" and ".join(why) if why else "the conjunction of its conditions")
@@ -758,7 +934,7 @@ R.mutant("loaded-version-from-current-state", PERS,
          sub("            update_version_id = mapper._get_committed_state_attr_by_column(\n                state, dict_, mapper.version_id_col\n            )\n        else:\n            update_version_id = None\n",
              "            update_version_id = mapper._get_state_attr_by_column(\n                state, dict_, mapper.version_id_col\n            )\n        else:\n            update_version_id = None\n"), "C44-R4")
 # benign
-R.mutant("benign-rename-flag", PERS, sub("need_version_id", "versioned", count=4), None)
+R.mutant("benign-rename-flag", PERS, sub("need_version_id", "versioned", count=5), None)
 R.mutant("benign-log", PERS, sub("        allow_executemany = not needs_version_id or assert_multirow\n", "        allow_executemany = not needs_version_id or assert_multirow\n        _n = len(records)\n"), None)
 # --- C44-R2 (per-condition vocabulary keys, generalised warn-only)
 R.mutant("delete-second-foreign-condition", PERS,
@@ -798,9 +974,98 @@ R.mutant("update-row-by-row-needs-multirow", PERS,
          sub("            if not allow_executemany:\n                check_rowcount = enable_check_rowcount and assert_singlerow\n",
              "            if not allow_executemany:\n                check_rowcount = enable_check_rowcount and assert_multirow\n"), "C44-R6")
 R.mutant("delete-check-single-record-only", PERS,
-         sub("                connection.dialect.supports_sane_multi_rowcount\n                or len(del_objects) == 1\n            )\n        ):",
+         sub("                connection.dialect.supports_sane_multi_rowcount\n                or len(del_objects) == 1\n                # versioned rows were deleted one statement at a time above\n                # on such dialects; the summed count is reliable\n                or need_version_id\n            )\n        ):",
              "                len(del_objects) == 1\n            )\n        ):"), "C44-R6")
 R.mutant("delete-only-warn-default-true", PERS, sub("        only_warn = False\n", "        only_warn = True\n"), "C44-R6")
-R.mutant("benign-delete-row-by-row-verified", PERS,
-         sub("                connection.dialect.supports_sane_multi_rowcount\n                or len(del_objects) == 1\n            )\n        ):",
-             "                connection.dialect.supports_sane_multi_rowcount\n                or len(del_objects) == 1\n                or need_version_id\n            )\n        ):"), None)
+R.mutant("benign-delete-row-by-row-verified-reordered", PERS,
+         sub("                connection.dialect.supports_sane_multi_rowcount\n                or len(del_objects) == 1\n                # versioned rows were deleted one statement at a time above\n                # on such dialects; the summed count is reliable\n                or need_version_id\n            )\n        ):",
+             "                need_version_id\n                or connection.dialect.supports_sane_multi_rowcount\n                or len(del_objects) == 1\n            )\n        ):"), None)
+
+
+# ---------------------------------------------------------------------- rob-G1: benign refactoring families
+# (a) DELETE emitter: renamed list local, `dialect` alias, inverted inner if/else, `len(..)` replaced by the local that holds it
+_DEL_INNER = ("            if connection.dialect.supports_sane_rowcount:\n                rows_matched = 0\n                # execute deletes individually so that versioned\n                # rows can be verified\n"
+              "                for params in del_params:\n                    c = connection.execute(\n                        statement, params, execution_options=execution_options\n                    )\n"
+              "                    rows_matched += c.rowcount\n            else:\n                util.warn(\n                    \"Dialect %s does not support deleted rowcount \"\n                    \"- versioning cannot be verified.\"\n"
+              "                    % connection.dialect.dialect_description\n                )\n                connection.execute(\n                    statement, del_params, execution_options=execution_options\n                )\n")
+_DEL_INNER_INV = ("            if not dialect.supports_sane_rowcount:\n                util.warn(\n                    \"Dialect %s does not support deleted rowcount \"\n                    \"- versioning cannot be verified.\"\n"
+                  "                    % dialect.dialect_description\n                )\n                connection.execute(\n                    statement, del_params, execution_options=execution_options\n                )\n"
+                  "            else:\n                rows_matched = 0\n                for params in del_params:\n                    c = connection.execute(\n                        statement, params, execution_options=execution_options\n                    )\n"
+                  "                    rows_matched += c.rowcount\n")
+_DEL_G4 = [
+    sub("del_objects", "del_params", count=6),
+    sub("        del_params = [params for params, connection in recs]\n", "        del_params = [params for params, connection in recs]\n        dialect = connection.dialect\n"),
+    sub("        if (\n            need_version_id\n            and not connection.dialect.supports_sane_multi_rowcount\n        ):\n", "        if need_version_id and not dialect.supports_sane_multi_rowcount:\n"),
+]
+_DEL_TAIL = sub("                connection.dialect.supports_sane_multi_rowcount\n                or len(del_params) == 1\n", "                dialect.supports_sane_multi_rowcount\n                or expected == 1\n")
+R.mutant("benign-delete-alias-inverted-branches-len-local", PERS, chain(*_DEL_G4, sub(_DEL_INNER, _DEL_INNER_INV), _DEL_TAIL), None)
+R.mutant("delete-alias-form-executemany-when-single-counts-reliable", PERS,
+         chain(*_DEL_G4, sub(_DEL_INNER, _DEL_INNER_INV.replace("if not dialect.supports_sane_rowcount:", "if dialect.supports_sane_rowcount:")), _DEL_TAIL), "C44-R3")
+R.mutant("delete-alias-form-check-single-record-only", PERS,
+         chain(*_DEL_G4, sub(_DEL_INNER, _DEL_INNER_INV),
+               sub("                connection.dialect.supports_sane_multi_rowcount\n                or len(del_params) == 1\n                # versioned rows were deleted one statement at a time above\n                # on such dialects; the summed count is reliable\n                or need_version_id\n",
+                   "                expected == 1\n")), "C44-R6")
+# (b) UPDATE emitters: the duplicated row-count check extracted into a helper
+_CHK = "            if rows != len(records):\n                raise orm_exc.StaleDataError(\n                    \"UPDATE statement on table '%s' expected to \"\n                    \"update %d row(s); %d were matched.\"\n                    % (table.description, len(records), rows)\n                )\n"
+_HELPER_AT = "def _emit_insert_statements(\n"
+_VERIFY = ("def _verify_update_rowcount(table, expected, matched):\n    \"\"\"Raise StaleDataError if an UPDATE matched another number of rows than were sent.\"\"\"\n\n"
+           "    if matched != expected:\n        raise orm_exc.StaleDataError(\n            \"UPDATE statement on table '%s' expected to \"\n            \"update %d row(s); %d were matched.\"\n"
+           "            % (table.description, expected, matched)\n        )\n\n\n")
+R.mutant("benign-rowcount-check-extracted", PERS,
+         chain(sub(_CHK, "            _verify_update_rowcount(table, len(records), rows)\n", count=2), sub(_HELPER_AT, _VERIFY + _HELPER_AT)), None)
+R.mutant("benign-rowcount-predicate-helper", PERS,
+         chain(sub("            if rows != len(records):\n", "            if _rowcount_differs(rows, len(records)):\n", count=2),
+               sub(_HELPER_AT, "def _rowcount_differs(matched, expected):\n    return matched != expected\n\n\n" + _HELPER_AT)), None)
+R.mutant("benign-stale-raise-extracted", PERS,
+         chain(sub(_CHK, "            if rows != len(records):\n                _raise_stale_update(table, len(records), rows)\n", count=2),
+               sub(_HELPER_AT, "def _raise_stale_update(table, expected, matched):\n    raise orm_exc.StaleDataError(\n        \"UPDATE statement on table '%s' expected to \"\n        \"update %d row(s); %d were matched.\"\n"
+                               "        % (table.description, expected, matched)\n    )\n\n\n" + _HELPER_AT)), None)
+R.mutant("benign-update-dialect-alias", PERS,
+         chain(sub("        assert_singlerow = connection.dialect.supports_sane_rowcount\n\n        assert_multirow = (\n            assert_singlerow\n            and connection.dialect.supports_sane_multi_rowcount\n        )\n",
+                   "        dialect = connection.dialect\n        assert_singlerow = dialect.supports_sane_rowcount\n\n        assert_multirow = (\n            assert_singlerow\n            and dialect.supports_sane_multi_rowcount\n        )\n"),
+               sub("        assert_singlerow = connection.dialect.supports_sane_rowcount\n        assert_multirow = (\n            assert_singlerow\n            and connection.dialect.supports_sane_multi_rowcount\n        )\n",
+                   "        dialect = connection.dialect\n        single_ok = dialect.supports_sane_rowcount\n        assert_singlerow = single_ok\n        assert_multirow = (\n            single_ok\n            and dialect.supports_sane_multi_rowcount\n        )\n")), None)
+R.mutant("extracted-rowcount-check-only-warns", PERS,
+         chain(sub(_CHK, "            _verify_update_rowcount(table, len(records), rows)\n", count=2),
+               sub(_HELPER_AT, "def _verify_update_rowcount(table, expected, matched):\n    if matched != expected:\n        util.warn(\"UPDATE matched %d rows, expected %d\" % (matched, expected))\n\n\n" + _HELPER_AT)), "C44-R2")
+R.mutant("extracted-rowcount-check-single-record-only", PERS,
+         chain(sub(_CHK, "            _verify_update_rowcount(table, len(records), rows)\n", count=2),
+               sub(_HELPER_AT, _VERIFY.replace("    if matched != expected:\n", "    if expected == 1 and matched != expected:\n") + _HELPER_AT)), "C44-R6")
+R.mutant("extracted-rowcount-check-depends-on-option", PERS,
+         chain(sub(_CHK, "            _verify_update_rowcount(base_mapper, table, len(records), rows)\n", count=2),
+               sub(_HELPER_AT, _VERIFY.replace("(table, expected, matched):", "(base_mapper, table, expected, matched):")
+                   .replace("    if matched != expected:\n", "    if base_mapper.confirm_deleted_rows and matched != expected:\n") + _HELPER_AT)), "C44-R2")
+# (c) the history probe of _collect_update_commands in other shapes
+_PROBE = ("                for prop in mapper._columntoproperty.values():\n                    history = state.manager[prop.key].impl.get_history(\n                        state, state_dict, attributes.PASSIVE_NO_INITIALIZE\n                    )\n"
+          "                    if history.added:\n                        break\n                else:\n                    # no net change, break\n                    continue\n")
+_PROBE_CALL = "                if not _has_added_history_in_any_table(\n                    mapper, state, state_dict\n                ):\n                    continue\n"
+_PROBE_AT = "def _collect_post_update_commands(\n"
+_PROBE_HELPER = ("def _has_added_history_in_any_table(mapper, state, state_dict):\n    for prop in mapper._columntoproperty.values():\n        history = state.manager[prop.key].impl.get_history(\n"
+                 "            state, state_dict, attributes.PASSIVE_NO_INITIALIZE\n        )\n        if history.added:\n            return True\n    return False\n\n\n")
+R.mutant("benign-history-probe-extracted", PERS, chain(sub(_PROBE, _PROBE_CALL), sub(_PROBE_AT, _PROBE_HELPER + _PROBE_AT)), None)
+R.mutant("benign-history-probe-flag", PERS,
+         sub(_PROBE, "                changed = False\n                for prop in mapper._columntoproperty.values():\n                    history = state.manager[prop.key].impl.get_history(\n                        state, state_dict, attributes.PASSIVE_NO_INITIALIZE\n                    )\n"
+                     "                    if history.added:\n                        changed = True\n                        break\n                if not changed:\n                    continue\n"), None)
+R.mutant("benign-history-probe-any", PERS,
+         sub(_PROBE, "                if not any(\n                    state.manager[prop.key].impl.get_history(\n                        state, state_dict, attributes.PASSIVE_NO_INITIALIZE\n                    ).added\n"
+                     "                    for prop in mapper._columntoproperty.values()\n                ):\n                    continue\n"), None)
+R.mutant("benign-history-probe-helper-returns-any", PERS,
+         chain(sub(_PROBE, _PROBE_CALL),
+               sub(_PROBE_AT, "def _has_added_history_in_any_table(m, st, d):\n    return any(\n        st.manager[p.key].impl.get_history(st, d, attributes.PASSIVE_NO_INITIALIZE).added\n        for p in m._columntoproperty.values()\n    )\n\n\n" + _PROBE_AT)), None)
+R.mutant("benign-history-probe-negated-helper", PERS,
+         chain(sub(_PROBE, "                if _no_added_history(mapper, state, state_dict):\n                    continue\n"),
+               sub(_PROBE_AT, _PROBE_HELPER.replace("_has_added_history_in_any_table", "_no_added_history").replace("return True", "return None").replace("return False", "return True").replace("return None", "return False") + _PROBE_AT)), None)
+R.mutant("extracted-probe-skips-when-found", PERS, chain(sub(_PROBE, _PROBE_CALL.replace("if not _has", "if _has")), sub(_PROBE_AT, _PROBE_HELPER + _PROBE_AT)), "C44-R5")
+R.mutant("extracted-probe-own-table-only", PERS,
+         chain(sub(_PROBE, _PROBE_CALL.replace("mapper, state, state_dict", "mapper, table, state, state_dict")),
+               sub(_PROBE_AT, _PROBE_HELPER.replace("(mapper, state, state_dict)", "(mapper, table, state, state_dict)")
+                   .replace("for prop in mapper._columntoproperty.values():", "for prop in [mapper._columntoproperty[c] for c in mapper._cols_by_table[table]]:") + _PROBE_AT)), "C44-R5")
+R.mutant("extracted-probe-leaves-on-deleted", PERS, chain(sub(_PROBE, _PROBE_CALL), sub(_PROBE_AT, _PROBE_HELPER.replace("history.added", "history.deleted") + _PROBE_AT)), "C44-R5")
+R.mutant("extracted-probe-of-base-mapper", PERS, chain(sub(_PROBE, _PROBE_CALL.replace("mapper, state, state_dict", "mapper.base_mapper, state, state_dict")), sub(_PROBE_AT, _PROBE_HELPER + _PROBE_AT)), "C44-R5")
+R.mutant("flag-probe-never-set", PERS,
+         sub(_PROBE, "                changed = False\n                for prop in mapper._columntoproperty.values():\n                    history = state.manager[prop.key].impl.get_history(\n                        state, state_dict, attributes.PASSIVE_NO_INITIALIZE\n                    )\n"
+                     "                    if history.added:\n                        break\n                if not changed:\n                    continue\n"), "C44-R5")
+R.mutant("benign-collector-version-col-renamed-val-inlined", PERS,
+         chain(sub("            col = mapper.version_id_col\n            no_params = not params and not value_params\n            params[col._label] = update_version_id\n\n            if (\n                bulk or col.key not in params\n            ) and mapper.version_id_generator is not False:\n                val = mapper.version_id_generator(update_version_id)\n                params[col.key] = val\n",
+                   "            version_col = mapper.version_id_col\n            no_params = not params and not value_params\n            params[version_col._label] = update_version_id\n\n            if (\n                bulk or version_col.key not in params\n            ) and mapper.version_id_generator is not False:\n                params[version_col.key] = mapper.version_id_generator(\n                    update_version_id\n                )\n"),
+               sub("                # statement\n                params[col.key] = update_version_id\n", "                # statement\n                params[version_col.key] = update_version_id\n")), None)
